@@ -29,6 +29,7 @@ RULE = ('C03\'s template-built example multisets with repeats (list form with '
 RULE += ' ' + 'Also: pruning options; byte-string input (utf-8-sig, BOM-prefixed duplicates); wide rows and line breaks; under sampling Sizes and with 101-4250 constructed distinct examples the figures are judged over Extractor.examples, each of which must be a supplied example carrying its supplied repeat count.'
 RULE += ' ' + 'Round 6: a third of the list cases under non-sampling sizes supply the examples through a check function (third documented input form).'
 RULE += ' ' + 'Round 7: half of the cases first put other read-only questions to the object (pattern_matches, coverage, incremental_coverage).'
+RULE += ' ' + 'Round 8: a third of the multi-expression cases remove the last expression through results.remove() and ask for coverage again.'
 ASSUMPTIONS = ['under a sampling Size the figures are about "the examples '
                'used by rexpy" (n_examples docstring): the sample plus the '
                'failures added, read from Extractor.examples; each must be a '
